@@ -73,6 +73,13 @@ package bit
 
 //@ # ---- bit reader -------------------------------------------------------------------------------------
 //@ predicate rOK(r *Reader) bool = r.buf != nil && bufioutil.bufOK(r.buf) && r.count <= 8
+//@ # view: the reader consumes the bit sequence of its buffer; rpos = number of bits consumed so far
+//@ pure sbit(data map[int]byte, i int) bool = (data[i / 8] >> uint(7 - i % 8)) & 1 == 1
+//@ predicate rpos(r *Reader) int = r.buf.index * 8 - int(r.count)
+//@ predicate rbitAt(r *Reader, i int) bool = sbit(contents(r.buf.buf), i)
+//@ # the pending byte holds the not yet consumed low bits of the last fetched byte, shifted to the top
+//@ predicate rSane(r *Reader) bool = rOK(r) && offset(r.buf.buf) == 0 && r.buf.length <= 72057594037927936 && r.buf.index <= r.buf.length && (r.count > 0 ==> (r.buf.index >= 1 && r.b == contents(r.buf.buf)[r.buf.index - 1] << (8 - r.count)))
+//@ globalinv io.EOF != nil
 //@ func Reader.Reset
 //@   prop C14
 //@   modifies r.err, r.count, r.b
@@ -80,19 +87,42 @@ package bit
 //@ end
 //@ func Reader.ReadBit
 //@   prop C14
-//@   requires rOK(r)
+//@   requires rSane(r)
 //@   modifies r.b, r.count, r.err, r.buf.index
 //@   ensures[next_bit_of_pending_byte] old(r.count) > 0 ==> (result0 == ((old(r.b) & 128) != 0) && r.b == old(r.b) << 1 && r.count == old(r.count) - 1 && r.buf.index == old(r.buf.index))
 //@   ensures[fetches_next_byte_when_empty] (old(r.count) == 0 && old(r.buf.index) < r.buf.length) ==> (result0 == ((r.buf.buf[old(r.buf.index)] & 128) != 0) && r.b == r.buf.buf[old(r.buf.index)] << 1 && r.count == 7 && r.buf.index == old(r.buf.index) + 1 && result1 == nil)
 //@   ensures[end_of_data_is_an_error] (old(r.count) == 0 && old(r.buf.index) >= r.buf.length) ==> result1 != nil
 //@   ensures rOK(r)
+//@   ensures[returns_next_bit] result1 == nil ==> (result0 == old(rbitAt(r, rpos(r))) && rpos(r) == old(rpos(r)) + 1 && rSane(r))
+//@   ensures[error_only_at_end_of_data] (old(r.err) == nil && old(rpos(r)) < r.buf.length * 8) ==> result1 == nil
+//@   ensures[error_is_sticky] result1 == r.err
 //@ end
 //@ func Reader.ReadByte
 //@   prop C14
-//@   requires rOK(r) && r.count < 8
+//@   requires rSane(r) && r.count < 8
 //@   modifies r.b, r.err, r.buf.index
 //@   ensures[aligned_read] (old(r.count) == 0 && old(r.buf.index) < r.buf.length) ==> (result0 == r.buf.buf[old(r.buf.index)] && result1 == nil && r.buf.index == old(r.buf.index) + 1)
 //@   ensures[unaligned_read_joins_two_bytes] (old(r.count) > 0 && old(r.buf.index) < r.buf.length) ==> (result0 == old(r.b) | (r.buf.buf[old(r.buf.index)] >> r.count) && r.b == r.buf.buf[old(r.buf.index)] << (8 - r.count) && result1 == nil && r.buf.index == old(r.buf.index) + 1)
 //@   ensures[end_of_data_is_an_error] old(r.buf.index) >= r.buf.length ==> result1 != nil
 //@   ensures r.count == old(r.count) && rOK(r)
+//@   ensures[returns_next_eight_bits] result1 == nil ==> (rpos(r) == old(rpos(r)) + 8 && rSane(r) && forall(p, old(rpos(r)), old(rpos(r)) + 8, bbit(result0, 7 - (p - old(rpos(r)))) == old(rbitAt(r, p))))
+//@   ensures[error_is_sticky] result1 == r.err
+//@ end
+//@ # numBits bits, most significant first, as the low bits of the result
+//@ func Reader.ReadBits
+//@   prop C14
+//@   opaque sbit
+//@   timeout 60
+//@   note bit positions are 64-bit machine integers; the step of the bit loop takes z3 5-12 s
+//@   requires rSane(r) && r.count < 8 && numBits >= 0 && numBits <= 64
+//@   modifies r.b, r.count, r.err, r.buf.index
+//@   ensures[consumes_numBits] result1 == nil ==> (rpos(r) == old(rpos(r)) + numBits && rSane(r))
+//@   ensures[value_is_the_bits_read] result1 == nil ==> forall(p, old(rpos(r)), old(rpos(r)) + numBits, old(rbitAt(r, p)) == ubit(result0, old(rpos(r)) + numBits - 1 - p))
+//@   ensures[no_extra_bits] (result1 == nil && numBits < 64) ==> result0 >> uint(numBits) == 0
+//@   loop 1 invariant numBits >= 0 && numBits <= numBits0 && rSane(r) && r.count < 8 && rpos(r) == old(rpos(r)) + (numBits0 - numBits) && r.buf.buf == old(r.buf.buf) && r.buf.length == old(r.buf.length)
+//@   loop 1 invariant (numBits0 - numBits < 64) ==> u >> uint(numBits0 - numBits) == 0
+//@   loop 1 invariant forall(p, old(rpos(r)), old(rpos(r)) + (numBits0 - numBits), old(rbitAt(r, p)) == ubit(u, old(rpos(r)) + (numBits0 - numBits) - 1 - p))
+//@   loop 2 invariant numBits >= 0 && numBits <= numBits0 && numBits < 8 && rSane(r) && rpos(r) == old(rpos(r)) + (numBits0 - numBits) && r.buf.buf == old(r.buf.buf) && r.buf.length == old(r.buf.length)
+//@   loop 2 invariant (numBits0 - numBits < 64) ==> u >> uint(numBits0 - numBits) == 0
+//@   loop 2 invariant forall(p, old(rpos(r)), old(rpos(r)) + (numBits0 - numBits), old(rbitAt(r, p)) == ubit(u, old(rpos(r)) + (numBits0 - numBits) - 1 - p))
 //@ end
